@@ -6,7 +6,7 @@ from . import common as C
 
 EVENT_NAMES = {1: 'storage got >1 packet', 2: 'sink ring wrapped', 3: 'filter ring wrapped', 4: 'trailing incomplete window',
                10: 'client consumed part of a multi-frame region', 11: 'client saw frames', 12: 'client held a region across stop/abort',
-               40: 'camera fault injected', 41: 'storage fault injected', 42: 'multi-frame packet at storage', 43: 'device closed while started', 45: 'camera changed its shape during the run',
+               40: 'camera fault injected', 41: 'storage fault injected', 42: 'multi-frame packet at storage', 43: 'device closed while started', 45: 'camera changed its shape during the run', 46: 'second open of a device in use refused',
                20: 'writer slept on a full ring', 21: 'abort arrived while the source was blocked', 22: 'frame delivered after trigger'}
 
 
@@ -316,6 +316,13 @@ def c08_programs(depth):
 
 
 def c08_cfgs(tier):
+    if tier == 'thorough':   # a superset of the quick tier
+        seen, out = set(), []
+        for c in c08_cfgs('quick') + _c08_thorough_only():
+            k = (c['scenario'], c['bound'], c['model'], tuple(sorted(c['params'].items())))
+            if k not in seen:
+                seen.add(k); out.append(c)
+        return out
     if tier == 'quick':
         progs = c08_programs(3) + ['AsSBsS', 'AsBsS', 'AsAS', 'AsaXAsS', 'AsmSu', 'AssS', 'AsXAs', 'ABsSa', 'AsSsa', 'Asmau', 'AstS', 'AsCS', 'AsDS', 'AsCsS', 'AsDsS', 'CsAS', 'AswCS',
                                    'FsAS', 'FswAS', 'AsFS', 'AswFwS', 'FsS', 'AsRS', 'AsRsS', 'RsS', 'AsRwsS', 'AsRa',
@@ -326,6 +333,9 @@ def c08_cfgs(tier):
         c += [cfg('c08', 0, prog=p) for p in ('AsS', 'Asa', 'AsBS', 'AsAS', 'AsSsS', 'AsaAsS')]
         c += [cfg('c08', 'D2', prog=p) for p in ('AsS', 'Asa', 'AsBS', 'AsAS', 'AsCS', 'AsDS', 'AsXAsS', 'AsmSu', '2sa', '2sSA', 'FswAS', 'AswFwS', 'AsRsS')]
         return c
+
+
+def _c08_thorough_only():
     progs = c08_programs(4) + [p + q for p in ('AsS', 'Asa', 'AsB') for q in ('BsS', 'XAs', 'sS', 'AsS', 'as')]
     c = [cfg('c08', 'D1', prog=p) for p in progs]
     c += [cfg('c08', 'D2', prog=p) for p in c08_programs(3)]
